@@ -6,7 +6,7 @@ use std::sync::Arc;
 
 use fst::automaton::AlwaysMatch;
 use fst::raw::{self, Fst, IndexedValue};
-use fst::{IntoStreamer, Map, Set, Streamer};
+use fst::{Map, Set, Streamer};
 use serde_json::{json, Value};
 
 use super::util::*;
